@@ -309,31 +309,37 @@ Definition s_block_from : Prop :=
   forall r, In r steps -> r < block_from -> may_block r = false.
 
 (* 7. "after Close returns nothing more is sent and every subscriber channel has been closed":
-      nothing is received after the step at which Close was seen to return; every subscriber
+      nothing is received after the step at which a Close call was seen to return; every subscriber
       whose Subscribe had returned before Close was called, and whose consumer is reading, has
       seen its channel closed by then (by the time it started reading everything, if later). *)
+(* Close may be called any number of times, from different goroutines; EVERY call that returns must
+   meet the clause. [c0] = the step of the first Close call (subscriptions whose Subscribe had
+   returned before it are certainly accepted), [c] = the step of the call considered. *)
+Definition close_steps : list Z :=
+  flat_map (fun e => match snd e with OClose => [fst e] | _ => [] end) isc.
+Definition close_ok (c0 c : Z) : bool :=
+  match done_step c with
+  | None => true
+  | Some d =>
+      forallb (fun e : Z * oev => match snd e with ERecv _ _ => fst e <=? d | _ => true end) ob
+      && forallb (fun e : Z * (Z * bool) => let i := fst e in let p := fst (snd e) in
+           negb (match done_step p with Some q => q <? c0 | None => false end) ||
+           match (if snd (snd e) then Some p else readall_step i) with
+           | None => true
+           | Some x => match closed_step i with
+                       | Some y => y <=? Z.max d x
+                       | None => false end
+           end) isubs
+  end.
 Definition o_close : bool :=
   match close_step with
   | None => true
-  | Some c =>
-      match done_step c with
-      | None => true
-      | Some d =>
-          forallb (fun e : Z * oev => match snd e with ERecv _ _ => fst e <=? d | _ => true end) ob
-          && forallb (fun e : Z * (Z * bool) => let i := fst e in let p := fst (snd e) in
-               negb (match done_step p with Some q => q <? c | None => false end) ||
-               match (if snd (snd e) then Some p else readall_step i) with
-               | None => true
-               | Some x => match closed_step i with
-                           | Some y => y <=? Z.max d x
-                           | None => false end
-               end) isubs
-      end
+  | Some c0 => forallb (close_ok c0) close_steps
   end.
 Definition s_close : Prop :=
-  forall c d, close_step = Some c -> done_step c = Some d ->
+  forall c0 c d, close_step = Some c0 -> In c close_steps -> done_step c = Some d ->
     (forall r i v, In (r, ERecv i v) ob -> r <= d) /\
-    (forall i p pr q, In (i, (p, pr)) isubs -> done_step p = Some q -> q < c ->
+    (forall i p pr q, In (i, (p, pr)) isubs -> done_step p = Some q -> q < c0 ->
        forall x, (if pr then Some p else readall_step i) = Some x ->
          exists y, closed_step i = Some y /\ y <= Z.max d x).
 
